@@ -10,6 +10,7 @@
 
 #![recursion_limit = "512"]
 
+mod ce;
 mod gens;
 mod oracle;
 mod rng;
@@ -647,8 +648,12 @@ fn cmd_check(a: &Args) -> i32 {
         Err(e) => harness_error(&format!("cannot load the data image: {}", e)),
     };
     let (comp, rf) = load_static(&image);
-    if let Err(e) = oracle::source_text_agrees(Path::new(REPO_CRATE), &comp) {
-        harness_error(&format!("T1: {}", e));
+    let t1_skipped = match oracle::source_text_agrees(Path::new(REPO_CRATE), &comp) {
+        Ok(s) => s,
+        Err(e) => harness_error(&format!("T1: {}", e)),
+    };
+    for s in &t1_skipped {
+        println!("NOTE: T1 (source text == compiled statics) skipped for {}; the compiled statics read through the hook are authoritative", s);
     }
     let st = oracle::static_checks(&comp, &rf);
     println!(
@@ -976,6 +981,13 @@ fn cmd_check(a: &Args) -> i32 {
                 "runs_with_a_nondefault_decision": lay.nondefault_runs + lik.nondefault_runs,
                 "generator_panics": lay.panics + lik.panics + cvr.panics,
             },
+            "output_oracle": {
+                "outputs_judged_by_compiling_them_in_place_of_the_checked_in_file": ce::COMPILED.load(std::sync::atomic::Ordering::Relaxed),
+                "compile_cache_hits": ce::CACHE_HITS.load(std::sync::atomic::Ordering::Relaxed),
+                "outputs_unjudged": ce::UNJUDGED.load(std::sync::atomic::Ordering::Relaxed),
+                "t1_source_text_check_skipped_for": t1_skipped,
+                "note": "fast path: tolerant item reader; fallback for output that is not plain items (macro DSL, const-fn constructors): scratch copy of the repository with the output in place of the checked-in file, compiled, statics dumped and compared",
+            },
             "static_oracle": {
                 "S1_rows_compared_with_cldr_reference": st.rows_checked,
                 "S3_integers_decoded": st.ints_decoded,
@@ -1049,6 +1061,13 @@ fn cmd_check(a: &Args) -> i32 {
         wall
     );
     if reported.is_empty() {
+        let unjudged = ce::UNJUDGED.load(std::sync::atomic::Ordering::Relaxed);
+        if unjudged > 0 {
+            harness_error(&format!(
+                "{} generator output(s) could be judged neither by the item reader nor by compiling them in place of the checked-in file (see the NOTE above): no verdict",
+                unjudged
+            ));
+        }
         0
     } else {
         1
